@@ -471,19 +471,26 @@ class CheckWorld:
         self.pkts = {}
         self.rng = rng
 
-    def packet(self, pn, pk_):
-        """A genuine packet signed with key pk_ under KeyLocator name pn (names are fresh per history, so packets are
-        made on demand)."""
+    def packet(self, pn, pk_, tam=False):
+        """A packet signed with key pk_ whose KeyLocator lies under key name pn - the key name itself or the name of
+        a certificate of that key (proper prefix). Names are fresh per history, so packets are made on demand and
+        kept for the history: the tampered variant (one bit of the signed payload flipped, for an Interest the
+        parameters digest recomputed) has the SAME signature value as the genuine one."""
         kind = self.rng.choice(['data', 'interest'])
         if (pn, pk_, kind) not in self.pkts:
             make_data, make_interest, MetaInfo, InterestParam = self.enc
-            sg = self.mk(self.names[pn - 1], self.keys[pk_ - 1])
+            loc = self.names[pn - 1] + (self.rng.choice([[], [b'\x08\x04self', b'\x36\x01\x07']]))
+            sg = self.mk(loc, self.keys[pk_ - 1])
             if kind == 'data':
-                w = make_data([b'\x08\x01d', b'\x08\x02' + self.rng.randbytes(2)], MetaInfo(), self.rng.randbytes(5), signer=sg)
+                w = make_data([b'\x08\x01d', b'\x08\x02' + self.rng.randbytes(2)], MetaInfo(), b'PAYLOAD-' + self.rng.randbytes(5), signer=sg)
             else:
-                w = make_interest([b'\x08\x01i'], InterestParam(), self.rng.randbytes(3), signer=sg)
-            self.pkts[(pn, pk_, kind)] = bytes(w)
-        return kind, self.pkts[(pn, pk_, kind)]
+                w = make_interest([b'\x08\x01i'], InterestParam(), b'PAYLOAD-' + self.rng.randbytes(3), signer=sg)
+            w = bytes(w)
+            j = w.index(b'PAYLOAD-')
+            t = w[:j] + bytes([w[j] ^ 0x01]) + w[j + 1:]
+            self.pkts[(pn, pk_, kind)] = (w, fix_digest(t) if kind == 'interest' else t)
+        g, t = self.pkts[(pn, pk_, kind)]
+        return kind, (t if tam else g)
 
     def pub_bits(self, ki):
         k = self.keys[ki - 1]
@@ -500,8 +507,8 @@ class CheckWorld:
         key = key if self.cls == 'hmac' else key[1]
         return lambda name, sp: bool(f(key, sp))
 
-    def ask(self, v, pn, pk):
-        kind, wire = self.packet(pn, pk)
+    def ask(self, v, pn, pk, tam=False):
+        kind, wire = self.packet(pn, pk, tam)
         name, _, _, sp = parse_interest(wire) if kind == 'interest' else parse_data(wire)
         try:
             return v(name, sp)
@@ -512,7 +519,7 @@ class CheckWorld:
 def run_check_history(ctx, cls, insts, checks, pool, nkey, nname):
     w = CheckWorld(cls, pool, ctx.rng, nkey, nname)
     vs = [w.make(i) for i in insts]
-    ev = [{'a': 'Check', 'i': i, 'pn': pn, 'pk': pk, 'acc': w.ask(vs[i - 1], pn, pk)} for (i, pn, pk) in checks]
+    ev = [{'a': 'Check', 'i': i, 'pn': pn, 'pk': pk, 'tam': bool(tam), 'acc': w.ask(vs[i - 1], pn, pk, bool(tam))} for (i, pn, pk, tam) in checks]
     return {'cls': cls, 'insts': insts, 'ev': ev}
 
 
@@ -524,38 +531,39 @@ def judge_check_histories(ctx, hists, stage):
         k = int(str(at).strip() or 0)
         e = h['ev'][k - 1] if 0 < k <= len(h['ev']) else None
         inst = h['insts'][e['i'] - 1] if e else None
-        right = e is not None and inst['k'] == e['pk'] and (not inst['named'] or inst['n'] == e['pn'])
+        right = e is not None and not e['tam'] and inst['k'] == e['pk'] and (not inst['named'] or inst['n'] == e['pn'])
         ctx.violation('C02/verifier-objects/%s/%s/%s' % (h['cls'], 'checker' if inst and inst['named'] else 'verify-function',
-                                                        'rejects-packet-of-its-own-key' if right else 'accepts-packet-of-another-key-or-name'),
+                                                        'rejects-packet-of-its-own-key' if right else
+                                                        'accepts-tampered-packet' if e and e['tam'] else 'accepts-packet-of-another-key-or-name'),
                       'several %s verifier objects %s: check #%d %s answered %s; a verdict may depend only on that verifier\'s key/name and the packet; events %s'
                       % (h['cls'], h['insts'], k, e, e and e['acc'], h['ev']),
-                      {'kind': 'check-history', 'cls': h['cls'], 'insts': h['insts'], 'checks': [[e_['i'], e_['pn'], e_['pk']] for e_ in h['ev']],
+                      {'kind': 'check-history', 'cls': h['cls'], 'insts': h['insts'], 'checks': [[e_['i'], e_['pn'], e_['pk'], e_['tam']] for e_ in h['ev']],
                        'rejected_at': k})
     return rej
 
 
 def check_hist_stage_a(ctx):
     cp = os.path.join(tlc.BUILD, 'NdnPacketsCheckHist.cfg')
-    c = {'NKey': 2, 'NName': 2, 'NInst': 2, 'MaxChecks': ctx.pick(3, 4), 'DevNameCache': 'FALSE', 'Plain': 'TRUE'}
+    c = {'NKey': 2, 'NName': 2, 'NInst': 2, 'MaxChecks': ctx.pick(3, 4), 'DevNameCache': 'FALSE', 'DevVerdictCache': 'FALSE', 'Plain': 'TRUE'}
     tlc.write_cfg(cp, constants=c, invariants=['OwnKeyOnly'])
     r = tlc.run('NdnPacketsCheckHist', cp, workers=2, heavy=False)
     ctx.add_tlc('NdnPacketsCheckHist %s' % c, r)
     if r.violated:
         ctx.violation('C02/spec/NdnPacketsCheckHist/%s' % r.violated, 'TLC: %s violated' % r.violated, {'trace': r.errtrace[:2000]})
-    tlc.write_cfg(cp, constants=dict(c, MaxChecks=2, DevNameCache='TRUE'), invariants=['OwnKeyOnly'])
-    if tlc.run('NdnPacketsCheckHist', cp, workers=1, heavy=False).violated != 'OwnKeyOnly':
-        raise MachineryError('OwnKeyOnly does not refute the name-keyed cache deviation')
+    for dev in ('DevNameCache', 'DevVerdictCache'):
+        tlc.write_cfg(cp, constants=dict(c, MaxChecks=2, Plain='FALSE', **{dev: 'TRUE'}), invariants=['OwnKeyOnly'])
+        if tlc.run('NdnPacketsCheckHist', cp, workers=1, heavy=False).violated != 'OwnKeyOnly':
+            raise MachineryError('OwnKeyOnly does not refute the deviation %s' % dev)
     # vacuity: the exhaustive run must have visited every (verifier pair, check sequence)
-    want = 16 * sum(8 ** j for j in range(c['MaxChecks'] + 1))
-    if r.ok and r.distinct != want:
-        raise MachineryError('NdnPacketsCheckHist visited %d states, expected %d' % (r.distinct, want))
+    if r.ok and r.distinct < 16 * sum(8 ** j for j in range(c['MaxChecks'] + 1)):
+        raise MachineryError('NdnPacketsCheckHist visited only %d states' % r.distinct)
 
 
 def check_hist_stage_b(ctx, pool):
     from harness import graph
     cp = os.path.join(tlc.BUILD, 'NdnPacketsCheckHist_g.cfg')
     m = ctx.pick(2, 3)
-    tlc.write_cfg(cp, constants={'NKey': 2, 'NName': 2, 'NInst': 2, 'MaxChecks': m, 'DevNameCache': 'FALSE',
+    tlc.write_cfg(cp, constants={'NKey': 2, 'NName': 2, 'NInst': 2, 'MaxChecks': m, 'DevNameCache': 'FALSE', 'DevVerdictCache': 'FALSE',
                                  'Plain': ctx.pick('FALSE', 'TRUE')}, invariants=['OwnKeyOnly'])
     g = graph.dump('NdnPacketsCheckHist', cp, workers=2)
     ctx.add_tlc('NdnPacketsCheckHist graph MaxChecks=%d (%d edges)' % (m, g.n_edges), g.tlc)
@@ -598,8 +606,13 @@ def check_hist_stage_c(ctx, pool):
         nname = ctx.rng.randint(1, 3)
         insts = [{'n': ctx.rng.randint(1, nname), 'k': ctx.rng.randint(1, nkey), 'named': ctx.rng.random() < 0.75}
                  for _ in range(ctx.rng.randint(2, 4))]
-        checks = [(ctx.rng.randint(1, len(insts)), ctx.rng.randint(1, nname), ctx.rng.randint(1, nkey))
-                  for _ in range(ctx.rng.randint(4, ctx.pick(8, 14)))]
+        checks = []
+        for _ in range(ctx.rng.randint(4, ctx.pick(8, 14))):
+            i = ctx.rng.randint(1, len(insts))
+            if ctx.rng.random() < 0.35:     # the verifier's own packet: genuine or tampered (several times)
+                checks.append((i, insts[i - 1]['n'], insts[i - 1]['k'], ctx.rng.random() < 0.5))
+            else:
+                checks.append((i, ctx.rng.randint(1, nname), ctx.rng.randint(1, nkey), False))
         hists.append(run_check_history(ctx, cls, insts, checks, pool, nkey, nname))
         ctx.traces += 1
         ctx.evaluations += len(checks)
@@ -782,6 +795,7 @@ def replay(ctx, path):
         obj = json.load(f)
     if obj.get('kind') == 'check-history':
         pool = pk.Pool(ctx.rng)
+        obj['checks'] = [list(c) + [False] * (4 - len(c)) for c in obj['checks']]
         nk = max([i['k'] for i in obj['insts']] + [c[2] for c in obj['checks']])
         nn = max([i['n'] for i in obj['insts']] + [c[1] for c in obj['checks']])
         h = run_check_history(ctx, obj['cls'], obj['insts'], [tuple(c) for c in obj['checks']], pool, nk, nn)
